@@ -157,8 +157,6 @@ class Driver(object):
             for t in tasks:
                 if t["id"] in ENGINE_COMMANDS:
                     rec["after"] = self.status()
-                    if self.reruns:
-                        raise KnownTrigger("R11")
                     raise Anomaly("engine command %r offered to the provider as a task" % t["id"])
             # dispatch is atomic with the poll (st2 does both under the execution lock)
             for t in tasks:
